@@ -351,6 +351,8 @@ type c10ChildOut struct {
 	Probes     []c10ProbeObs          `json:"probes"`
 	BigRuns    []c10RunObs            `json:"big_runs"`
 	Trials     []c10Trial             `json:"disconnect_trials"`
+	TwoConn    [][]int                `json:"two_conn_counts"`
+	TwoNotes   []string               `json:"two_conn_notes"`
 	Stress     map[string]interface{} `json:"stress"`
 	StuckNotes []string               `json:"stuck_notes,omitempty"`
 }
@@ -1648,6 +1650,88 @@ func c10DisconnectTrials(rng *rand.Rand, n int) []c10Trial {
 	return out
 }
 
+// A RetryClient driven by hand: the previous BaseClient's reader goroutine is still alive and
+// receiving QoS 2 traffic when the next client is set and connected (the stock reconnect loop
+// waits for Done() first); the second connection gets its own QoS 2 stream at the same time.
+// The two readers work on the session's inbound QoS 2 store concurrently. Observed: how often
+// each message reached the handler (must be exactly once).
+func c10TwoConnTrial(rng *rand.Rand, perConn int) (counts []int, note string) {
+	runtime.GOMAXPROCS(2 + rng.Intn(7))
+	var mu sync.Mutex
+	seen := map[string]int{}
+	h := mqtt.HandlerFunc(func(m *mqtt.Message) {
+		mu.Lock()
+		seen[string(m.Payload)]++
+		mu.Unlock()
+		runtime.Gosched()
+	})
+	rc := &mqtt.RetryClient{}
+	rc.Handle(h)
+	mk := func() (*c10Conn, *c10Broker, *mqtt.BaseClient) {
+		conn := newC10Conn()
+		br := &c10Broker{wantAcks: perConn, acksDone: make(chan struct{})}
+		conn.onFrame = br.onFrame
+		return conn, br, &mqtt.BaseClient{Transport: conn}
+	}
+	conn1, br1, cli1 := mk()
+	conn2, br2, cli2 := mk()
+	done1, done2 := br1.acksDone, br2.acksDone
+	ctx, cancel := ctxTimeout(20 * time.Second)
+	defer cancel()
+	rc.SetClient(ctx, cli1)
+	if _, err := rc.Connect(ctx, "cid"); err != nil {
+		return nil, "connect 1: " + err.Error()
+	}
+	stream := func(conn *c10Conn, tag byte, base int, started chan struct{}) {
+		for k := 0; k < perConn; k++ {
+			conn.send(encPublish(inMsg{Topic: []byte("in/2"), ID: uint16(base + k), QoS: 2, Payload: []byte{tag, byte(k >> 8), byte(k)}}))
+			if k == perConn/4 && started != nil {
+				close(started)
+			}
+			runtime.Gosched()
+		}
+	}
+	flowing := make(chan struct{})
+	var wg sync.WaitGroup
+	wg.Add(1)
+	go func() { defer wg.Done(); stream(conn1, 1, 100, flowing) }()
+	<-flowing // connection 1's stream is under way: now the next client arrives
+	rc.SetClient(ctx, cli2)
+	wg.Add(1)
+	go func() { defer wg.Done(); stream(conn2, 2, 20000, nil) }()
+	if _, err := rc.Connect(ctx, "cid"); err != nil {
+		note = "connect 2: " + err.Error()
+	}
+	wg.Wait()
+	for _, d := range []chan struct{}{done1, done2} {
+		select {
+		case <-d:
+		case <-time.After(15 * time.Second):
+			note += " inbound flows did not complete;"
+		}
+	}
+	cli1.Close()
+	cli2.Close()
+	for _, c := range []*mqtt.BaseClient{cli1, cli2} {
+		select {
+		case <-c.Done():
+		case <-time.After(10 * time.Second):
+			note += " reader did not stop;"
+		}
+	}
+	ctx2, cancel2 := ctxTimeout(5 * time.Second)
+	_ = rc.Disconnect(ctx2)
+	cancel2()
+	mu.Lock()
+	defer mu.Unlock()
+	for tag := byte(1); tag <= 2; tag++ {
+		for k := 0; k < perConn; k++ {
+			counts = append(counts, seen[string([]byte{tag, byte(k >> 8), byte(k)})])
+		}
+	}
+	return counts, note
+}
+
 // ===================================================================== child
 
 func runC10Child(cfg *runCfg) error {
@@ -1728,6 +1812,19 @@ func runC10Child(cfg *runCfg) error {
 	lap("multi_client")
 	out.Trials = c10DisconnectTrials(rng, nTrials)
 	lap("disconnect_trials")
+	nTwo, perConn := 40, 80
+	switch cfg.tier {
+	case "thorough":
+		nTwo, perConn = 400, 150
+	case "search":
+		nTwo, perConn = 60, 100
+	}
+	for i := 0; i < nTwo; i++ {
+		cs, note := c10TwoConnTrial(rng, perConn)
+		out.TwoConn = append(out.TwoConn, cs)
+		out.TwoNotes = append(out.TwoNotes, note)
+	}
+	lap("two_connections")
 	conns, notes := c10StressReconnect(rng, reconIters, reconG, reconOps)
 	lap("reconnect")
 	out.Stress["reconnect_iterations"] = reconIters
@@ -1940,6 +2037,15 @@ func runC10(cfg *runCfg) error {
 		}
 	}
 	cf.def("c10_pairs", "list (nat * nat)", cListInline(pairs))
+	var shareRows []string
+	for _, sh := range x.shares {
+		shareRows = append(shareRows, "("+c10CoqString(sh.From)+","+c10CoqString(sh.To)+")")
+		m.Families["shared_referent"] = append(m.Families["shared_referent"], map[string]interface{}{
+			"what": "the map/slice/pointer held in " + sh.From + " is stored into " + sh.To + " of another lock-owning object: one referent, two lock objects",
+			"site": sh})
+	}
+	cf.def("c10_shares", "list (string * string)", cListInline(shareRows))
+	cf.result("V_shared_referent", "c10_share_violations c10_shares")
 	cf.result("V_lockset", "c10_pair_violations c10_table c10_pairs")
 	cf.result("V_facts", "c10_fact_violations c10_table")
 	cf.result("M_lockset_decision", "c10_decision_mismatch c10_table c10_pairs")
@@ -2098,6 +2204,30 @@ func runC10(cfg *runCfg) error {
 			"trial": i, "what": "Disconnect racing producers on one RetryClient: every call must return nil or ErrClosedClient and must not panic",
 			"calls": t.Calls, "codes_0nil_1closed_2other_3panic": t.Codes, "detail": t.Detail})
 	}
+	var twoRows []string
+	for i, cs := range co.TwoConn {
+		xs := make([]string, len(cs))
+		bad := 0
+		for j, c := range cs {
+			xs[j] = fmt.Sprint(c)
+			if c != 1 {
+				bad++
+			}
+		}
+		twoRows = append(twoRows, cListInline(xs))
+		note := ""
+		if i < len(co.TwoNotes) {
+			note = co.TwoNotes[i]
+		}
+		m.Families["handover"] = append(m.Families["handover"], map[string]interface{}{
+			"trial": i, "what": "two live connections of one RetryClient session (SetClient(cli2)+Connect while cli1's reader still receives QoS 2 traffic): every inbound QoS 2 message must reach the handler exactly once",
+			"messages": len(cs), "messages_not_handed_over_exactly_once": bad, "note": note})
+		if cs == nil {
+			m.ImplViolations = append(m.ImplViolations, map[string]interface{}{"what": "two-connection trial could not run", "note": note})
+		}
+	}
+	cf.def("c10_two_conn", "list (list N)", cListInline(twoRows))
+	cf.result("V_handover", "c10_handover_violations c10_two_conn")
 	cf.def("c10_trials", "list (list N)", cListInline(trialRows))
 	cf.result("V_disconnect", "c10_trial_violations c10_trials")
 	cf.def("c10_probes", "list c10_probe", cList(probeRows))
@@ -2130,7 +2260,7 @@ func runC10(cfg *runCfg) error {
 	}
 
 	// ---------------- evidence
-	m.Evaluations = len(x.accesses) + len(pairs) + len(co.Runs) + len(co.Probes) + len(co.BigRuns) + len(co.Trials)
+	m.Evaluations = len(x.accesses) + len(pairs) + len(co.Runs) + len(co.Probes) + len(co.BigRuns) + len(co.Trials) + len(co.TwoConn)
 	m.DistinctNontrivial = len(pairs) + len(co.Probes) + len(co.Runs)
 	m.Rule = "a candidate pair = two table rows on one field, not both reads, not both atomic; a probe = one (holder, contender) combination of writers; a wire run = one concurrent session with >= 8 goroutines and inbound traffic"
 	roles := map[string]int{}
@@ -2141,7 +2271,7 @@ func runC10(cfg *runCfg) error {
 	}
 	m.Distribution = map[string]interface{}{
 		"access_table_rows": len(x.accesses), "candidate_pairs": len(pairs), "rows_per_field": byField, "rows_per_role": roles,
-		"translator_warnings": x.warnings, "wire_runs": len(co.Runs), "overlap_probes": len(co.Probes), "large_packet_runs": len(co.BigRuns), "disconnect_trials": len(co.Trials),
+		"translator_warnings": x.warnings, "wire_runs": len(co.Runs), "overlap_probes": len(co.Probes), "large_packet_runs": len(co.BigRuns), "disconnect_trials": len(co.Trials), "two_connection_trials": len(co.TwoConn), "shared_referent_sites": len(x.shares),
 		"packets_written_in_wire_runs_and_probes": nPackets, "race_exploration": co.Stress, "race_reports_total": len(races),
 		"race_reports_library_distinct": len(seen), "child_wall_s": childWall.Seconds(), "stuck_notes": co.StuckNotes,
 		"tier": cfg.tier, "seed": cfg.seed,
